@@ -71,7 +71,8 @@ def parse_hex_string(buffer):
                     state = STATE_WANT_CMD_START
                     marker = bytes()
             else:
-                marker = bytes()
+                # mismatch: the offending character may itself start the marker (e.g. "SSWTPM_IO")
+                marker = b if b == CMD_MARKER[0:1] else bytes()
                 continue
         elif state == STATE_WANT_CMD_START:
             if b is None:
